@@ -232,6 +232,8 @@ func genP06(g *Gen, p *Program) {
 							// what the State did accept must not read as
 							// another value
 							op.I[2], op.I[3] = 4, int64(g.R.Range(1, 3))
+						} else if g.R.P(1, 4) {
+							op.I[2], op.I[3] = 5, 0
 						}
 					}
 				case "Sprintf":
